@@ -1176,7 +1176,8 @@ std::string eval_macro_callback(
     // running inside the VM and thus cannot give way for the evaluate_expression method.
     // ToDo: Fix "edge case" where the user uses a running VM to preprocess a file that contains __EVAL to not break the SQF-VM execution.
     auto res = runtime.evaluate_expression(params[0], success, false);
-    return success ? res.data()->to_string_sqf() : "";
+    // the expression may well yield nothing (nil, an assignment in __EXEC): value prints that as `nil`
+    return success ? res.to_string_sqf() : "";
 }
 // __COUNTER__ belongs to the VM instance it is expanded in (not to the process)
 struct counter_storage : public ::sqf::runtime::runtime::datastorage
